@@ -14,7 +14,7 @@ RULE = ("firmware-valid (rate, accel, T, accumulator|clear): families zero first
         "(dps 5/15/30/50 or prec 7) and through move_dist_lt, moveDistLMA or moveDistLM; non-trivial = T >= 2 and accel != 0")
 TRUSTED = ["mpmath at 30 digits and Python float division are exact on the firmware-valid domain (all intermediates are half-integers below 2^99): argued in DESIGN.md, sampled here"]
 ASSUMPTIONS = ["|rate_k| <= 2^31-1 for k = 1..T, 1 <= T < 2^32, accumulator in [0, 2^31) or clear"]
-AMBIENT = [("dps", 5), ("dps", 15), ("dps", 30), ("dps", 50), ("prec", 7), ("prec", 200)]
+AMBIENT = [("dps", 5), ("dps", 15), ("dps", 30), ("dps", 50), ("prec", 7), ("prec", 200), ("decimal", 9), ("decimal", 4)]
 
 def generate(rng, tier):
     n = 1500 if tier == "quick" else 40000
@@ -61,16 +61,16 @@ def run_impl(c):
     kw = c.get("kw", 0)
     try:
         for ov in c.get("over", []):
-            setattr(mpmath.mp, k, v)
+            ebbgen.set_ambient(k, v)
             try: _once(dict(c, **ov), c["acc"], kw)
             except Exception: pass
         for a0 in c.get("pre", []):
-            setattr(mpmath.mp, k, v)
+            ebbgen.set_ambient(k, v)
             _once(c, a0, kw)
-        setattr(mpmath.mp, k, v)
+        ebbgen.set_ambient(k, v)
         p, a = _once(c, c["acc"], kw)
     finally:
-        mpmath.mp.dps = 15
+        ebbgen.reset_ambient()
     return {"pos": int(p), "acc": int(a)}
 
 def coq_case(c, r):
